@@ -384,6 +384,20 @@ fn drive(sim: &mut Sim, prof: &Profile, rng: &mut Rng, rep: &mut Report, ctype: 
 					// nothing waiting in either side's holding cell (workload steering only: the verdict never reads this)
 					&& det.pending_inbound_htlcs.is_empty() && det.pending_outbound_htlcs.is_empty()
 					&& sim.w.nodes[peer].mgr.list_channels().iter().filter(|c| c.channel_id == cid).all(|c| c.pending_inbound_htlcs.is_empty() && c.pending_outbound_htlcs.is_empty());
+				// a focused probe needs a channel on which nothing at all is pending – also no event whose handling
+				// releases a held monitor update (and with it a queued fee update): hand out the events, look again
+				let (quiet, lo, hi, amt) = if quiet {
+					sim.w.process_events(src);
+					sim.w.process_events(peer);
+					let det2 = sim.w.nodes[src].mgr.list_usable_channels().into_iter().find(|c| c.channel_id == cid);
+					let still = det2.is_some() && sim.w.queue_len(src, peer) == 0 && sim.w.queue_len(peer, src) == 0 && sim.w.chans[first].model.as_ref().map(|m| !m.has_pending_updates()).unwrap_or(false) && sim.w.nodes[src].persister.pending().is_empty() && sim.w.nodes[peer].persister.pending().is_empty();
+					match det2 {
+						Some(d2) if still && d2.next_outbound_htlc_limit_msat == hi && d2.next_outbound_htlc_minimum_msat == lo => (true, lo, hi, amt),
+						_ => (false, lo, hi, amt),
+					}
+				} else {
+					(quiet, lo, hi, amt)
+				};
 				sim.w.note(format!("SEND node{}->node{} amt={} limits=[{},{}] hops={} quiet={}", src, dst, amt, lo, hi, chans.len(), quiet));
 				let probe = if direct { Some(Probe { step: sim.w.step, node: src, chan: first, dst, min: lo, limit: hi, amount: amt, quiet, hash: [0; 32], add_seen: None, claimable_seen: false, failed_back: false, judged: false }) } else { None };
 				let r = sim.w.send_payment(src, &[(chans.clone(), amt)], 80, None, probe);
